@@ -442,7 +442,9 @@ func dischargeFlat(obls []*Obl, outDir string, secs int, par int) {
 			switch res.verdict {
 			case "unsat":
 				o.Status = "discharged"
-				os.Remove(file)
+				if os.Getenv("GOVC_KEEP") == "" {
+					os.Remove(file)
+				}
 			case "sat":
 				o.Status = "failed"
 				o.Output = res.output
